@@ -51,13 +51,25 @@ struct Charge {
     amount: OwnedAmount,
 }
 
+/// Folds free text taken from a statement into the single line
+/// the Ledger format has for a payee, a code or a comment:
+/// line breaks (with the blanks around them) become one space,
+/// and the surrounding blanks, which the parser would drop anyway, are removed.
+fn to_single_line(text: &str) -> String {
+    text.split(['\r', '\n'])
+        .map(str::trim)
+        .filter(|line| !line.is_empty())
+        .collect::<Vec<_>>()
+        .join(" ")
+}
+
 impl Txn {
     pub fn new(date: NaiveDate, payee: &str, amount: OwnedAmount) -> Txn {
         Txn {
             date,
             effective_date: None,
             code: None,
-            payee: payee.to_string(),
+            payee: to_single_line(payee),
             comments: Vec::new(),
             dest_account: None,
             clear_state: None,
@@ -78,17 +90,24 @@ impl Txn {
     }
 
     pub fn code_option<'a>(&'a mut self, code: Option<&str>) -> &'a mut Txn {
-        self.code = code.map(str::to_string);
+        self.code = code.map(to_single_line);
         self
     }
 
     pub fn code<'a>(&'a mut self, code: &str) -> &'a mut Txn {
-        self.code = Some(code.to_string());
+        self.code = Some(to_single_line(code));
         self
     }
 
+    /// Adds comment lines, one for each non-blank line of the given text.
     pub fn add_comment(&mut self, comment: String) -> &mut Txn {
-        self.comments.push(comment);
+        self.comments.extend(
+            comment
+                .split(['\r', '\n'])
+                .map(str::trim)
+                .filter(|line| !line.is_empty())
+                .map(str::to_string),
+        );
         self
     }
 
@@ -162,7 +181,7 @@ impl Txn {
             commodity: amount.commodity.clone(),
         });
         self.charges.push(Charge {
-            payee: payee.to_string(),
+            payee: to_single_line(payee),
             amount,
         });
         Ok(self)
@@ -170,7 +189,7 @@ impl Txn {
 
     pub fn add_charge<'a>(&'a mut self, payee: &str, amount: OwnedAmount) -> &'a mut Txn {
         self.charges.push(Charge {
-            payee: payee.to_string(),
+            payee: to_single_line(payee),
             amount,
         });
         self
